@@ -27,6 +27,8 @@ thread_local! {
     static IN_DECOY: Cell<bool> = Cell::new(false);
     static DECOY_CALLS: Cell<u64> = Cell::new(0);
     static DECOY_ROT: Cell<usize> = Cell::new(0);
+    /// in this mode the decoys take a step only AFTER the monitored state did, never before
+    static DECOY_POST_ONLY: Cell<bool> = Cell::new(false);
     static LAST_PANIC: RefCell<Option<(String, String)>> = RefCell::new(None);
 }
 
@@ -147,8 +149,15 @@ fn decoy_pre(api: &'static str) {
     IN_DECOY.with(|c| c.set(false));
 }
 
+pub fn set_decoy_post_only(v: bool) {
+    DECOY_POST_ONLY.with(|c| c.set(v));
+}
+
 pub fn guard<T>(api: &'static str, f: impl FnOnce() -> T) -> Result<T, PanicInfo> {
-    decoy_pre(api);
+    let stepping = api == "take_action" || api == "preview+apply";
+    if !(stepping && DECOY_POST_ONLY.with(|c| c.get())) {
+        decoy_pre(api);
+    }
     GUARD_DEPTH.with(|d| d.set(d.get() + 1));
     let r = catch_unwind(AssertUnwindSafe(f));
     GUARD_DEPTH.with(|d| d.set(d.get() - 1));
